@@ -9,6 +9,17 @@ COMMON_NOTE = ("Trusted: Coq 8.16.1 kernel; extraction with ExtrOcamlBasic only 
                "the radix-tree library, flock(2), goroutine scheduling. See DESIGN.md section 5.")
 
 CHECKS = {
+ 'C19': dict(text="Partial. Proved (Coq) for the lock-table model of Flock.v, over every sequence of Open (both modes, succeeding or "
+                  "failing), Close, Publish, Delete on any number of handles: an exclusive lock excludes all other handles, a read-write "
+                  "Open needs a free directory, a read-only Open only the absence of a writer, a failed Open leaves the table unchanged, "
+                  "read-only handles reject Publish/Delete with ErrReadonly (also on the log model). That a read-only handle answers "
+                  "queries like a read-write one is the C03/C04 theorems (the model's readers are the same functions in both modes, and "
+                  "the checkers are evaluated on read-only sessions of generated histories). The model is tied to /repo by running "
+                  "every sequence of <=3 steps (4 in thorough) plus random ones on real handles: two in-process and one in a child process, "
+                  "with corrupt-index and missing-directory opens; log-file checksums show read-only sessions change no log file.",
+             ref='6/C19', technique='Coq proof over a lock-table model + exhaustive short sequences on real flock handles',
+             note="Not expressible in the model: flock(2) itself (the model is the textbook shared/exclusive table, validated only by "
+                  "the runs, incl. a second process). " + COMMON_NOTE),
  'C02': dict(text="Proof (Coq): in every state satisfying Inv (any segment layout, after any deletes incl. tail deletes and an emptied log), "
                   "Publish of n messages on a read-write handle returns NextOffset+n, assigns exactly NextOffset..NextOffset+n-1 whatever "
                   "offsets the caller supplied, with or without rollover, preserves Inv and extends the abstract log by exactly those "
